@@ -98,6 +98,11 @@ def check_header(ctx):
     # one dictionary of all fields is taken, the given fields are written into that dictionary, the header is rebuilt from it
     taken = [s.targets[0].id for s in rules.func_stmts(uw.node) if isinstance(s, ast.Assign) and len(s.targets) == 1 and isinstance(s.targets[0], ast.Name) and norm(s.value) == "self._as_dictionary"]
     ok = len(taken) == 1 and txt == [f"{taken[0]} = self._as_dictionary", f"{taken[0]}.update({kw})", f"return self.__class__(**{taken[0]})"]
+    if not ok:
+        # the same dictionary spelt as one display: all fields first, the given ones after them (later entries win)
+        merged = "{**self._as_dictionary, **" + str(kw) + "}"
+        named = [s.targets[0].id for s in rules.func_stmts(uw.node) if isinstance(s, ast.Assign) and len(s.targets) == 1 and isinstance(s.targets[0], ast.Name) and norm(s.value) == merged]
+        ok = bool(txt) and txt[-1] in [f"return self.__class__(**{merged})"] + [f"return self.__class__(**{n})" for n in named[:1]] and txt[:-1] == [f"{n} = {merged}" for n in named]
     ctx.ob("C16.P1", uw.qualname, ok, "updated_with rebuilds the header from all fields with the given ones replaced" if ok else f"updated_with is {txt}", where=uw.where)
 
 
